@@ -38,4 +38,19 @@ def bitrev : Nat → Nat → Nat
   | 0, _ => 0
   | k + 1, i => 2 ^ k * (i % 2) + bitrev k (i / 2)
 
+/-! ### vocabulary for the per-layer step
+
+  A layer is a table `yv : Nat → α` of values indexed by (bit-reversed) domain index; it is laid out
+  coset-wise: coset `c` occupies the indices `c*n, …, c*n + n-1`.  `qi` is the list of queried indices,
+  `cidx` the list of cosets containing a query. -/
+
+/-- the sibling values the verifier consumes: coset by coset, the values at the non-queried offsets -/
+def expectedSiblings {α : Type} (n : Nat) (yv : Nat → α) (cidx qi : List Nat) : List α :=
+  cidx.flatMap fun c =>
+    ((List.range n).filter (fun i => decide (c * n + i ∉ qi))).map (fun i => yv (c * n + i))
+
+/-- all values of the cosets `cidx`, coset by coset (what is sent to the Merkle decommitment) -/
+def cosetValues {α : Type} (n : Nat) (yv : Nat → α) (cidx : List Nat) : List α :=
+  cidx.flatMap fun c => (List.range n).map (fun i => yv (c * n + i))
+
 end Swiftness.FoldSpec
